@@ -283,6 +283,10 @@ def main(tier):
     # the same input types through the introspection source (defaults are known to be lost there: C19; so only types without defaults)
     intro = [n for n in INPUT_NAMES if n.startswith(("S_", "N_")) or n in ("Mixed", "Rec")]
     cases += [(n, {"__introspection__": True}) for n in (intro if tier != "quick" else intro[::3])]
+    # the pruning options in every combination, for inputs that reference enums / nested inputs (the other inputs of the schema are then kept or dropped)
+    for n in ("S_Kind_0", "S_Kind_5", "Mixed", "D_enum", "D_objenum", "Rec", "MoneyOuter"):
+        for ai, ae in ((True, False), (True, True), (False, True)):
+            cases.append((n, {"include_all_inputs": ai, "include_all_enums": ae}))
     results = pool.run_cases(evaluate, cases, timeout=300, progress=200)
     evals = 0
     outcomes = set()
